@@ -5,7 +5,7 @@
    silently; `Print Assumptions` lists the axioms it depends on (none are declared by this development). *)
 From Coq Require Import NArith List Bool String.
 From Octo Require Import Base.Bytes Crypto.Prims Lib.Framed Lib.Canon Model.Address Model.NonceGen Model.SsChunk Model.SsTcp Model.Trojan Model.Socks5 Model.Http Generated.Params Generated.Shared
-  Proofs.AddressFacts Proofs.NonceFacts Proofs.SsChunkRoundtrip Proofs.SsChunkCanon Proofs.SsTcpSafety Proofs.SsTcpRoundtrip Proofs.CodecLemmas Proofs.TrojanFacts Proofs.Socks5Facts Proofs.HttpFacts Lib.WsFramed Proofs.WsFramedFacts.
+  Proofs.AddressFacts Proofs.NonceFacts Proofs.SsChunkRoundtrip Proofs.SsChunkCanon Proofs.SsTcpSafety Proofs.SsTcpRoundtrip Proofs.CodecLemmas Proofs.TrojanFacts Proofs.Socks5Facts Proofs.HttpFacts Lib.WsFramed Proofs.WsFramedFacts Model.Vmess Proofs.VmessSafety Proofs.VmessFacts.
 Import ListNotations.
 Set Printing Width 200.
 
@@ -77,6 +77,16 @@ Definition C04_ws_trojan := @trojan_ws_is_framed.
 Definition C04_ws_vmess := @vmess_ws_is_framed.
 Definition C04_ws_ss := @ss_ws_is_framed.
 
+(* VMess body stream under FramedRead: every segmentation, all option masks; no stall, no livelock *)
+Definition C04_vmess_body := @vmess_body_segmentation_independent.
+(* VMess packet mode: the same LIST of datagrams for every segmentation *)
+Definition C04_vmess_packets := @vmess_packet_segmentation_independent.
+(* the VMess body decoder is its unit machine *)
+Definition C04_vmess_body_is_canon := @decode_payload_v_is_canon.
+
+Check @C04_vmess_body.
+Check @C04_vmess_packets.
+Check @C04_vmess_body_is_canon.
 Check @C04_ws_is_framed.
 Check @C04_ws_binary_is_framed.
 Check @C04_ws_no_stall.
@@ -127,3 +137,6 @@ Print Assumptions C04_ws_failed_silent.
 Print Assumptions C04_ws_trojan.
 Print Assumptions C04_ws_vmess.
 Print Assumptions C04_ws_ss.
+Print Assumptions C04_vmess_body.
+Print Assumptions C04_vmess_packets.
+Print Assumptions C04_vmess_body_is_canon.
